@@ -349,4 +349,17 @@ theorem C15_sdl_route_is_spec (M : TsDoc) (h : Routes.ValidResolved M) : CliSche
 /-- the hypothesis is satisfiable by the non-trivial document of `exampleM_valid` -/
 example : Routes.ValidResolved exampleM := exampleM_valid.resolved
 
+/-!
+## OPEN — carried by K/O only
+
+Nothing of this module's statements is open; what is NOT proved is listed once, in the block at the end of
+`Props/C15.lean`: that `CheckOp` / `OpTypes` / `SchemaDecls` are the real checker / printers (K of C03/C04, C01/C02, C10 on
+SDL inputs; the two-route O stream), diagnostic message texts, the reader on JSON other than the specification's
+rendering, and that the hypotheses `ValidParsed` / `UserNotBuiltin` / `ScalarsConfigured` / `docOk` hold (they are
+assumptions; `docOk`, closed references and `ScalarsConfigured` are shown necessary by the `…_counterexample` theorems, the
+others are not).  The checker / operation-type theorems speak about the document view `jsonView M = Bridge.ofIR
+(Routes.jsonSide M)`, which is not literally `type_system_to_ast` (`Bridge.sees_ofIR`); the schema declaration theorems use
+the literal `docJson M = schemaToAst (Routes.jsonSide M)`.
+-/
+
 end NitroVerif.C15
